@@ -81,6 +81,16 @@ def garbage(framing, side):
         ev.append(('bare-colon-crlf', b':\r\n'))
     if framing == 'binary':
         ev.append(('empty-braces', b'{}'))
+    # a long burst of line noise without any delimiter of the framing (longer than one, two and four maximum frames)
+    for n in (300, 600, 1100, 2100):
+        x, out = 12345, bytearray()
+        while len(out) < n:
+            x = (x * 1103515245 + 12345) & 0x7FFFFFFF
+            b = (x >> 16) & 0xFF
+            if bytes([b]) in (b':', b'\r', b'\n', b'{', b'}') or (framing == 'rtu' and len(out) == 0 and b == UNIT):
+                continue
+            out.append(b)
+        ev.append(('noise%d' % n, bytes(out)))
     return ev
 
 
@@ -91,6 +101,8 @@ def gclass(name):
         return 'truncated'
     if name.startswith('fc'):
         return 'fc'
+    if name.startswith('noise'):
+        return 'noise'
     return name
 
 
